@@ -103,3 +103,72 @@ def present_theorems(prop, lean_dir):
 def any_missing(lean_dir):
     vals = read_generated(lean_dir)
     return [c for c in DEPS if c not in vals]
+
+
+# ------------------------------------------------------------------------------------------------------------------
+# Translator tie: Generated/Steps.lean (tools/extract_steps.py) against the model's record table (Props/TieSteps.lean)
+# theorem -> properties whose theorems rely on the model's table row / framing order being what the code does
+STEP_DEPS = {
+ 'dec_steps_agree': ['C02', 'C03', 'C04', 'C09', 'C10'],
+ 'enc_steps_agree': ['C02', 'C05', 'C08', 'C10', 'C18'],
+ 'dec_dispatch_agree': ['C03', 'C04'],
+ 'enc_dispatch_agree': ['C05', 'C10'],
+ 'frame_dec_dns': ['C03', 'C04', 'C09'],
+ 'frame_enc_dns': ['C05', 'C08'],
+ 'frame_question': ['C03', 'C05', 'C10'],
+ 'frame_rr': ['C03', 'C09'],
+ 'ext_c18_no_compressing_writer': ['C18'],
+ 'ext_reader_writer_symmetric': ['C02', 'C10'],
+ 'ext_in_only_symmetric': ['C02', 'C03'],
+}
+# bodies the translator does not read (loops over sub-decoders); they stay tied by the correspondence run only
+EXPECTED_UNREADABLE = {('dec', 'OPT'), ('dec', 'APL'), ('dec', 'SVCB'), ('dec', 'HTTPS'), ('enc', 'OPT')}
+
+def step_theorems_for(prop):
+    return [t for t, ps in STEP_DEPS.items() if prop in ps]
+
+def steps_unreadable(lean_dir):
+    p = os.path.join(lean_dir, 'DnsVerif', 'Generated', 'Steps.lean')
+    try: src = open(p).read()
+    except OSError: return None
+    m = re.search(r'def stepsUnreadable[^\n]*\n(.*?)\]\nend Gen', src, re.S)
+    return re.findall(r'\("([^"]*)", "([^"]*)", "([^"]*)"\)', m.group(1)) if m else None
+
+def steps_counts(lean_dir):
+    p = os.path.join(lean_dir, 'DnsVerif', 'Generated', 'Steps.lean')
+    try: src = open(p).read()
+    except OSError: return {}
+    out = {}
+    for name in ('decDispatch', 'encDispatch', 'decSteps', 'encSteps', 'frameSteps'):
+        m = re.search(r'def %s [^\n]*\n(.*?)\]\n(?:/--|def|end)' % name, src, re.S)
+        out[name] = len(re.findall(r'^  \(', m.group(1), re.M)) if m else 0
+    return out
+
+def steps_broken(prop, lean_dir, build_ok, build_out):
+    """(broken obligations of `prop`, theorems of `prop` that check, notes).  `build_out` is lake's output for
+    DnsVerif.Props.TieSteps; a failing `decide` is attributed to the theorem whose source span contains the error line."""
+    mine = step_theorems_for(prop)
+    notes = []
+    unread = steps_unreadable(lean_dir)
+    if unread is None:
+        notes.append('Generated/Steps.lean missing or unreadable: the translator tie is not checkable')
+        return [], [], notes
+    for side, ty, why in unread:
+        if (side, ty) not in EXPECTED_UNREADABLE:
+            notes.append('translator cannot read the %s side of %s any more (%s): TieSteps says nothing about it' % (side, ty, why))
+    if build_ok or not mine:
+        return [], mine, notes
+    src = open(os.path.join(lean_dir, 'DnsVerif', 'Props', 'TieSteps.lean')).read().split('\n')
+    starts = [(i + 1, re.match(r'theorem\s+(\w+)', l).group(1)) for i, l in enumerate(src) if re.match(r'theorem\s+\w+', l)]
+    failed = set(); unmapped = False
+    for m in re.finditer(r'TieSteps\.lean:(\d+):\d+', build_out):
+        ln = int(m.group(1)); name = None
+        for st, n in starts:
+            if st <= ln: name = n
+        if name: failed.add(name)
+        else: unmapped = True
+    if not failed or unmapped or 'Steps.lean:' in build_out:
+        failed = set(STEP_DEPS)          # the generated file itself does not elaborate: nothing is shown any more
+    broken = ['TieSteps.%s no longer checks: the Rust %s differ from the model\'s table (see lean/DnsVerif/Generated/Steps.lean)' % (
+        t, 'readers' if 'dec' in t else 'writers' if 'enc' in t else 'codec functions') for t in mine if t in failed]
+    return broken, [t for t in mine if t not in failed], notes
